@@ -59,6 +59,8 @@ func ProbeAll(idx *updog.Index, d *model.Data, o ProbeOpts) error {
 		stride = total/o.MaxValues + 1
 	}
 	k := 0
+	type cv struct{ c, v string }
+	var first []cv // the first values asked for are asked for again after all the others
 	for _, c := range cols {
 		for _, v := range d.Values(c) {
 			k++
@@ -72,6 +74,18 @@ func ProbeAll(idx *updog.Index, d *model.Data, o ProbeOpts) error {
 			if want := uint64(d.ValueCount(c, v)); got != want {
 				return fmt.Errorf("%+q=%+q holds for %d rows, was added to %d", c, v, got, want)
 			}
+			if len(first) < 300 {
+				first = append(first, cv{c, v})
+			}
+		}
+	}
+	for _, x := range first {
+		got, err := count(model.Eq(x.c, x.v))
+		if err != nil {
+			return err
+		}
+		if want := uint64(d.ValueCount(x.c, x.v)); got != want {
+			return fmt.Errorf("asked again after %d other values: %+q=%+q holds for %d rows, was added to %d", k, x.c, x.v, got, want)
 		}
 	}
 	if o.Unique != "" && d.HasColumn(o.Unique) {
